@@ -169,8 +169,26 @@ theorem Schema.DecodeSafe.objectDyn {S : Schema} (h : S.DecodeSafe) {ot d : Nat}
   exact h.objects p hp
 
 open Lean Elab Tactic Meta in
-/-- close a `NoPanic` goal with a local hypothesis whose conclusion is `NoPanic`, side goals by
-    `assumption` (reducible unification only, so that recursive definitions are never unfolded). -/
+/-- depth-bounded backward search over the local hypotheses (reducible unification only, so that the
+    recursive decoders are never unfolded). -/
+partial def npSolve (depth : Nat) (g : MVarId) : MetaM Unit := g.withContext do
+  try
+    withReducible g.assumption
+  catch _ =>
+    if depth = 0 then throwError "npSolve: depth exhausted"
+    for ld in (← getLCtx) do
+      if ld.isImplementationDetail then continue
+      let s ← saveState
+      try
+        let gs ← withReducible (g.apply ld.toExpr)
+        for g' in gs do npSolve (depth - 1) g'
+        return
+      catch _ => s.restore
+    throwError "npSolve: no hypothesis applies"
+
+open Lean Elab Tactic Meta in
+/-- close a `NoPanic` goal with a local hypothesis whose conclusion is `NoPanic`; its premises are
+    searched among the hypotheses (depth 2). -/
 elab "np_hyp" : tactic => withMainContext do
   let g ← getMainGoal
   for ld in (← getLCtx) do
@@ -180,7 +198,7 @@ elab "np_hyp" : tactic => withMainContext do
       let s ← saveState
       try
         let gs ← withReducible (g.apply ld.toExpr)
-        for g' in gs do g'.assumption
+        for g' in gs do npSolve 2 g'
         replaceMainGoal []
         return
       catch _ => s.restore
